@@ -31,6 +31,8 @@ for sid in ids:
         p = subprocess.run(["./check", prop, tier], cwd=V, capture_output=True, timeout=3600)
         out = p.stdout.decode("utf-8", "replace")
         rcc = p.returncode
+        if rcc not in (0, 1) or (rcc == 1 and "VIOLATION" not in out):
+            print(p.stderr.decode("utf-8", "replace")[-3000:])
     finally:
         subprocess.run("git -C %s checkout -- . && git -C %s clean -fdq" % (REPO, REPO), shell=True)
         # evidence files must only ever come from runs on the unchanged tree
